@@ -9,7 +9,7 @@
    updateOrphanPeers); its tie to the Go code is proof/C12_Skel.v + the correspondence run.
    Outside the model: negative Count (rejected by adjustRule; the Go search then leaves a nil RuleFit),
    peers with equal ids (sort.Slice is unstable), non-ASCII labels (EqualFold is ASCII here). *)
-From Coq Require Import String Permutation.
+From Coq Require Import String Permutation Sorting.Sorted.
 From PDV Require Import lib.Base lib.C12_Order gen.Gen_C12 model.C12_Fit proof.C12_FitProof proof.C12_Skel.
 Local Open Scope list_scope.
 
@@ -89,6 +89,36 @@ Example C12_compare_prefix_not_transitive :
   compare_region_fit c b = Eq /\ compare_region_fit b a = Eq /\ compare_region_fit c a = Lt.
 Proof. vm_compute. repeat split. Qed.
 
+(* ---- assumptions removed or quantified ---- *)
+(* sort.Slice is unstable: whatever order it leaves among peers of equal id, the answer is fit_region of that
+   arrangement of the region's peers — and every theorem here holds for every arrangement *)
+Theorem C12_unstable_sort_covered :
+  forall stores leader ps ps' rules, Permutation ps ps' -> StronglySorted pid_le ps' ->
+    fit_imp stores (mk_fpeers_from 0 stores leader ps') rules = fit_region stores leader ps' rules
+    /\ Permutation (map pid ps') (map pid ps).
+Proof. exact unstable_sort_covered. Qed.
+
+(* isolation scores: 0 <= score <= C(n,2) * base^(levels-1); below 2^53 (exact in float64, every partial sum
+   included) for <= 6 peers in a rule and <= 7 location labels *)
+Theorem C12_isolation_score_bounds :
+  forall ps labels, (0 <= isolation_score ps labels
+     <= Z.of_nat (length ps * (length ps - 1) / 2) * replicaBaseScore ^ (Z.of_nat (length labels) - 1))%Z.
+Proof. exact isolation_score_bounds. Qed.
+Theorem C12_isolation_score_exact_in_float64 :
+  forall ps labels, (length ps <= 6)%nat -> (length labels <= 7)%nat -> (0 <= isolation_score ps labels < 2 ^ 53)%Z.
+Proof. exact isolation_score_exact_in_float64. Qed.
+
+(* the brute-force oracle of the monitor (every sub-sequence of the free candidates of size <= Count, rule by
+   rule) enumerates exactly the valid assignments, and FitRegion's answer always passes it *)
+Theorem C12_all_valid_spec :
+  forall peers rules sel A, In A (all_valid peers rules sel) <-> valid peers rules sel A.
+Proof. exact all_valid_spec. Qed.
+Theorem C12_fit_region_passes_oracle :
+  forall stores leader ps rules,
+  exists fits orph, fit_region stores leader ps rules = (map Some fits, orph) /\
+                    not_worse_than_any (mk_fpeers stores leader ps) rules (fits, orph) = true.
+Proof. exact fit_region_passes_oracle. Qed.
+
 (* non-vacuity: 3 zones, a leader rule pinned to z1, two voters spread over zones, a learner rule;
    5 peers: the search places 4 (first maximum {11,13} of the equally isolated voter pairs) and leaves one orphan; a valid assignment exists and is not better *)
 Definition ex_stores := [Store 1 [("zone","z1")]; Store 2 [("zone","z1")]; Store 3 [("zone","z2")];
@@ -117,3 +147,8 @@ Print Assumptions C12_fit_optimal.
 Print Assumptions C12_crf_documented_order.
 Print Assumptions C12_satisfied_iff.
 Print Assumptions C12_compare_region_fit_total_preorder.
+Print Assumptions C12_unstable_sort_covered.
+Print Assumptions C12_isolation_score_bounds.
+Print Assumptions C12_isolation_score_exact_in_float64.
+Print Assumptions C12_all_valid_spec.
+Print Assumptions C12_fit_region_passes_oracle.
